@@ -188,7 +188,8 @@ def judge_pair(g, c, real_out):
                 return (10**18, "wrong-sign", comp)
         d = abs(int(ordinal(gv)) - int(ordinal(cv)))
         if d > 16:
-            return (d, ">16ulp", comp)
+            # two magnitude classes, so that a recorded moderate loss does not hide a catastrophic one in the same region
+            return (d, ">16ulp" if d <= 4096 else ">4096ulp", comp)
         worst = max(worst, d)
     return (worst, None, None)
 
